@@ -535,6 +535,87 @@ theorem dtcRecords_length_le (o : Orc) : o.dtcRecords.length ≤ o.dtcCount := b
   have := key ((List.range o.dtcCount).map (fun i => o.dtcs.getD i (0, 0))) []
   simpa using this
 
+/-- `d[k] = v` for a key the dict already has does not add an entry -/
+theorem dictPut_length_of_mem (d : List (Nat × UInt8)) (k : Nat) (v : UInt8) (h : k ∈ d.map (·.1)) :
+    (dictPut d k v).length = d.length := by
+  have := congrArg List.length (dictPut_keys d k v)
+  simpa [h] using this
+
+theorem dictPut_keys_mono (d : List (Nat × UInt8)) (k : Nat) (v : UInt8) (a : Nat) (h : a ∈ d.map (·.1)) :
+    a ∈ (dictPut d k v).map (·.1) := by
+  rw [dictPut_keys]; split
+  · exact h
+  · exact List.mem_append_left _ h
+
+theorem dictPut_key_mem (d : List (Nat × UInt8)) (k : Nat) (v : UInt8) : k ∈ (dictPut d k v).map (·.1) := by
+  rw [dictPut_keys]; split
+  · assumption
+  · simp
+
+/-- a draw list that repeats a DTC (or hits one already in the dict) yields strictly fewer entries than draws -/
+theorem dtc_fold_length_lt (mask : UInt8) (ps : List (Fin 16777216 × UInt8)) :
+    ∀ d : List (Nat × UInt8),
+      (¬ (ps.map (fun p => p.1.val)).Nodup ∨ ∃ p ∈ ps, p.1.val ∈ d.map (·.1)) →
+      (ps.foldl (fun d p => dictPut d p.1.val (p.2 &&& mask)) d).length < d.length + ps.length := by
+  have bound : ∀ (ps : List (Fin 16777216 × UInt8)) (d : List (Nat × UInt8)),
+      (ps.foldl (fun d p => dictPut d p.1.val (p.2 &&& mask)) d).length ≤ d.length + ps.length := by
+    intro ps
+    induction ps with
+    | nil => intro d; simp
+    | cons p rest ih =>
+      intro d
+      simp only [List.foldl_cons, List.length_cons]
+      have h1 := ih (dictPut d p.1.val (p.2 &&& mask))
+      have h2 := dictPut_length_le d p.1.val (p.2 &&& mask)
+      omega
+  induction ps with
+  | nil => intro d h; simp at h
+  | cons p rest ih =>
+    intro d h
+    simp only [List.foldl_cons, List.length_cons]
+    by_cases hk : p.1.val ∈ d.map (·.1)
+    · have h1 := bound rest (dictPut d p.1.val (p.2 &&& mask))
+      have h2 := dictPut_length_of_mem d p.1.val (p.2 &&& mask) hk
+      omega
+    · have h2 := dictPut_length_le d p.1.val (p.2 &&& mask)
+      have hih : ¬ (rest.map (fun p => p.1.val)).Nodup ∨
+          ∃ q ∈ rest, q.1.val ∈ (dictPut d p.1.val (p.2 &&& mask)).map (·.1) := by
+        rcases h with h | ⟨q, hq, hqd⟩
+        · simp only [List.map_cons, List.nodup_cons] at h
+          by_cases hm : p.1.val ∈ rest.map (fun p => p.1.val)
+          · obtain ⟨q, hq, hqe⟩ := List.mem_map.1 hm
+            exact Or.inr ⟨q, hq, by rw [hqe]; exact dictPut_key_mem d _ _⟩
+          · exact Or.inl (fun hn => h ⟨hm, hn⟩)
+        · rcases List.mem_cons.1 hq with rfl | hq
+          · exact absurd hqd hk
+          · exact Or.inr ⟨q, hq, dictPut_keys_mono d _ _ _ hqd⟩
+      have := ih _ hih
+      omega
+
+/-- **duplicate_dtc_draw_answered**: when the RNG of `read_dtc_information` draws the same 24-bit DTC twice in one
+    reportDTCByStatusMask call (passes `i < j` of the loop), the handler still answers positively with the dict-built
+    record list: the repeated draw is merged (strictly fewer records than draws), the DTC keys of the list are pairwise
+    distinct and below 2^24, i.e. the response object satisfies the field constraints of its class (`Resp.WF`: the
+    check the bytes constructor of `_ReadDTCType1Response` makes can not fire), for every state, mask and suppress bit -/
+theorem duplicate_dtc_draw_answered (o : Orc) (st : SrvState) (mask : Nat) (sup : Bool) (i j : Nat) (hij : i < j)
+    (hj : j < o.dtcCount) (hdup : (o.dtcs.getD i (0, 0)).1 = (o.dtcs.getD j (0, 0)).1) :
+    typedHandler o st (.dtcByMask dtcByStatusMask mask sup)
+        = some (.dtcList (UdsReq.u8 dtcByStatusMask) o.byte o.dtcRecords) ∧
+      o.dtcRecords.length < o.dtcCount ∧
+      UdsResp.distinctKeys o.dtcRecords = true ∧ (∀ p ∈ o.dtcRecords, p.1 < 0x1000000) := by
+  refine ⟨by simp [typedHandler], ?_, (dtcRecords_ok o).1, (dtcRecords_ok o).2⟩
+  have hnd : ¬ (((List.range o.dtcCount).map (fun i => o.dtcs.getD i (0, 0))).map (fun p => p.1.val)).Nodup := by
+    intro hn
+    have hp := List.pairwise_iff_getElem.1 hn i j (by simp; omega) (by simp; omega) hij
+    simp only [List.getElem_map, List.getElem_range] at hp
+    exact hp (by rw [hdup])
+  have := dtc_fold_length_lt o.byte _ [] (Or.inl hnd)
+  simpa [Orc.dtcRecords] using this
+
+/-- non-vacuity: a three-draw oracle whose first and third draw are the same DTC gives a two-record answer -/
+example : (({ dtcCount := 3, byte := 0xFF, dtcs := [(5, 1), (7, 2), (5, 4)] } : Orc).dtcRecords) = [(5, 4), (7, 2)] := by
+  decide
+
 theorem encRecs_length (l : List (Nat × UInt8)) : (UdsResp.encRecs l).length = 4 * l.length := by
   induction l with
   | nil => rfl
